@@ -452,7 +452,7 @@ var clauseKeywords = map[string]bool{
 	"requires": true, "ensures": true, "modifies": true, "trusted": true, "panics": true, "loop": true,
 	"invariant": true, "progress": true, "at": true, "func": true, "pred": true, "fn": true, "ufn": true, "sort": true,
 	"ghost": true, "axiom": true, "layout": true, "callers": true, "pin": true, "typeshape": true, "loopexits": true,
-	"lemma": true, "inline": true, "nocall": true, "package": true, "freshresult": true, "opaque": true, "interference": true,
+	"lemma": true, "inline": true, "nocall": true, "guarded": true, "package": true, "freshresult": true, "opaque": true, "interference": true,
 }
 
 var tagRe = regexp.MustCompile(`^C\d\d(,C\d\d)*$`)
@@ -584,7 +584,7 @@ func (ss *SpecSet) ParseSpecFile(path string, goComments bool, pkgPath string) e
 				return fmt.Errorf("%s:%d: %v", path, it.line, err)
 			}
 			ss.Lemmas = append(ss.Lemmas, &Lemma{Tags: tags, Label: label, E: e, Pkg: pkgPath, Src: rest})
-		case "layout", "callers", "pin", "typeshape", "nocall", "loopexits":
+		case "layout", "callers", "pin", "typeshape", "nocall", "loopexits", "guarded":
 			tags, label, rest := parseLabel(it.text)
 			_ = label
 			ss.Structs = append(ss.Structs, &StructDecl{Kind: it.kw, Tags: tags, Args: strings.TrimSpace(label + " " + rest), Pkg: pkgPath, File: path, Line: it.line})
